@@ -3,6 +3,10 @@
 import json, os, re
 HERE = os.path.dirname(os.path.dirname(os.path.abspath(__file__)))
 NEEDS = {
+ "C09-m3": ("C09", "ReplayBuffer.sample fast path for batch_size >= len(buffer) returns a view of the ring storage instead of a copy: only when the batch covers the whole buffer, the caller keeps it and a later add() wraps onto those slots (the handed-out batch changes)", ""),
+ "C10-m3": ("C10", "n-step reward computed by a backward recursion masked by each environment's own done flag while next_obs/done still come from the forward scan that stops at the first step where ANY environment ended - two sites that each look right: >=2 envs, n>=3, one env ending inside a window in which another does not", ""),
+ "C11-m3": ("C11", "max-weight minimum taken over min_tree.min(0, size-1) with an exclusive end: the last stored slot is left out; only when the unique lowest priority sits at index size-1 (update_priorities on the last slot of a full buffer) - weights exceed 1", ""),
+ "C12-m3": ("C12", "worker caches which agents have left (placeholder written once) and clears the cache on an explicit reset only, not on auto-reset: an agent that leaves >=2 steps before the end of its episode keeps the placeholder observation for the whole next episode", "missed by the first C12 version (agent_0 always left exactly one step before the end, so its first absent step was the auto-reset step); caught after adding leave=2 (two steps before the end) to families A, B and W"),
  "C01-m1": ("C01", "tournament_selection with elitism returns the SAME object as elite and new_pop[0]; visible only when the new generation is trained/mutated and the elite is looked at afterwards", "missed by the first C01/C05 versions; caught after adding the sibling identity/storage scan to C01's tournament op and C05's judge_select"),
  "C01-m2": ("C01", "deepcopy of optimizer state moved into OptimizerWrapper but forgotten for the multi-agent branch: MADDPG/MATD3/IPPO clones share Adam moments; needs a learn step before cloning and training of another family member afterwards", ""),
  "C02-m1": ("C02", "rl_hp mutation re-creates only the first optimizer registered under the mutated lr (TD3/MATD3 critic_2, IPPO critics) - needs an algorithm with two optimizers on one lr and that lr being sampled", ""),
@@ -63,5 +67,8 @@ for name, (prop, needs, note) in NEEDS.items():
             "caught": (f"yes ({rc.group(1)})" if rc and rc.group(2) == "1" else "NO") + (f"; {note}" if note else ""),
             "key": keys[0] if keys else "", "all_keys": keys[:6],
             "tests_run_by_author": "see README.agent.md (relevant pinned test files; all passing ids still pass)"}
+    tw = re.search(r"tests_selected=(\d+)\ntests_with: (.*)", r)
+    if tw:
+        meta["tests_rerun_with_change"] = f"{tw.group(1)} baseline (stable_pass) ids of the touched area selected: {tw.group(2).strip()}"
     json.dump(meta, open(os.path.join(d, "meta.json"), "w"), indent=1)
 print("ok")
